@@ -593,6 +593,12 @@ class Exec:
         return list(it)
 
     def e_ListComp(self, st, n):
+        h = self.c.get('comp_hook')
+        if h:
+            # a comprehension over a symbolic collection, modelled by the contract as one value (e.g. ``all(l is None for l in n.ins)``)
+            r = h(self, st, n)
+            if r is not NotImplemented:
+                return r
         if len(n.generators) != 1 or n.generators[0].is_async:
             raise NotInSubset('comprehension shape')
         g = n.generators[0]
